@@ -504,6 +504,7 @@ func Main(cfg Config) {
 	corpusDir := flag.String("corpus", "", "directory of corpus histories (run first)")
 	replay := flag.String("replay", "", "replay one recorded history and print the trace")
 	count := flag.Int("count", 0, "override the number of generated histories")
+	scale := flag.Int("scale", 1, "multiply the number of generated histories (used when the anchored source files changed)")
 	flag.Parse()
 
 	start := time.Now()
@@ -571,6 +572,9 @@ func Main(cfg Config) {
 	n := cfg.Count[*tier]
 	if *count > 0 {
 		n = *count
+	}
+	if *scale > 1 {
+		n *= *scale
 	}
 	for i := 0; i < n; i++ {
 		work = append(work, src{cfg.Gen(rng.Fork(), *tier, i), fmt.Sprintf("gen:%d", i)})
